@@ -1221,6 +1221,8 @@ async fn thread_compaction_auto(
                     &planned,
                     (actor_id.as_str(), origin.as_str()),
                 );
+                #[cfg(rip_verif)]
+                rip_kernel::verif::point("job.task.returned");
             })
             .await;
         });
